@@ -63,3 +63,76 @@ def motor_group():
     return {"sg": sg, "insns": list(sg.opcodes), "var_fd": fd, "var_size": args[2],
             "off_wkc_errors": sg.__dict__["wkc_errors"], "vars": offs,
             "in_base": pa[SyncManager.IN] + 14, "out_base": pa[SyncManager.OUT] + 14, "size": sg.packet.size}
+
+
+def procvar_group(case, fast):
+    """C19: real sync group (FastSyncGroup assembled into bytecode when `fast`, else a SyncGroup as `start()`
+    leaves it after `allocate()`) for a JSON case: terminals with their `pdos` tables, process variables declared
+    on generated terminal classes (ProcessDesc/PacketDesc, optionally inside a Struct channel with position
+    offsets) and linked to the TerminalVars of generated Device subclasses whose `program()` and `update()`
+    both execute the case's assignment statements through the real descriptors."""
+    from ebpfcat.ebpfcat import (FastSyncGroup, SyncGroup, SyncManager, EBPFTerminal, Device, TerminalVar,
+                                 DeviceVar, PacketDesc, ProcessDesc, Struct)
+    ec = _FakeEC()
+
+    def desc(d):
+        if d[0] == "process":
+            return ProcessDesc(d[1], d[2], d[3])
+        return PacketDesc(SyncManager(d[1]), d[2], d[3])
+
+    terms = []
+    for ti, ts in enumerate(case["terms"]):
+        attrs = {}
+        for vi, v in enumerate(case["vars"]):
+            if v["t"] != ti:
+                continue
+            if v["struct"] is None:
+                attrs[f"v{vi}"] = desc(v["desc"])
+            else:
+                ch = type(f"Ch{vi}", (Struct,), {"m": desc(v["desc"])})
+                attrs[f"c{vi}"] = ch(*v["struct"])
+        t = type(f"T{ti}", (EBPFTerminal,), attrs)(ec)
+        t.position = ts["position"]
+        t.pdos = {(i, s): (SyncManager(sm), off, size) for i, s, sm, off, size in ts["pdos"]}
+        t.pdo_in_sz, t.pdo_out_sz, t.pdo_in_off, t.pdo_out_off = ts["in_sz"], ts["out_sz"], 0x1100, 0x1000
+        t.use_fmmu = ts["fmmu"]
+        terms.append(t)
+
+    ndev = 1 + max([v["dev"] for v in case["vars"]] + [d["dev"] for d in case["dvs"]] + [o["dev"] for o in case["ops"]])
+    devs = []
+    for di in range(ndev):
+        attrs = {f"tv{vi}": TerminalVar() for vi, v in enumerate(case["vars"]) if v["dev"] == di}
+        attrs.update({f"dv{j}": DeviceVar(d["fmt"]) for j, d in enumerate(case["dvs"]) if d["dev"] == di})
+        ops = [o for o in case["ops"] if o["dev"] == di]
+
+        def body(self, ops=ops):
+            for o in ops:
+                if o["op"] == "get":
+                    setattr(self, f"dv{o['dv']}", getattr(self, f"tv{o['src']}"))
+                else:
+                    kind, x = o["src"]
+                    val = x if kind == "const" else getattr(self, (f"tv{x}" if kind == "var" else f"dv{x}"))
+                    setattr(self, f"tv{o['dst']}", val)
+        attrs["program"] = body
+        attrs["update"] = body
+        dev = type(f"D{di}", (Device,), attrs)()
+        for vi, v in enumerate(case["vars"]):
+            if v["dev"] == di:
+                t = terms[v["t"]]
+                pv = getattr(t, f"v{vi}") if v["struct"] is None else getattr(t, f"c{vi}").m
+                setattr(dev, f"tv{vi}", pv)
+        devs.append(dev)
+
+    pvs = [devs[v["dev"]].__dict__[f"tv{vi}"] for vi, v in enumerate(case["vars"])]
+    if not fast:
+        sg = SyncGroup(ec, devs)
+        sg.allocate()
+        return {"sg": sg, "terms": terms, "devs": devs, "pvs": pvs}
+    with fsim.fake_maps() as created:
+        sg = FastSyncGroup(ec, devs)
+        sg.allocate()
+        sg.assemble()
+    (fd, args), = created
+    return {"sg": sg, "terms": terms, "devs": devs, "pvs": pvs, "insns": list(sg.opcodes), "var_fd": fd,
+            "var_size": args[2], "off_wkc_errors": sg.__dict__["wkc_errors"],
+            "dv_off": [devs[d["dev"]].__dict__[f"dv{j}"] for j, d in enumerate(case["dvs"])]}
